@@ -197,6 +197,16 @@ func (t tamper) apply(data []byte, donor []byte, rng *vh.Rand) []byte {
 			m[t.Off] ^= t.Mask
 		}
 		return m
+	case "flip-stride":
+		// the same mask at t.Len positions a fixed distance (136: the duplex
+		// rate) apart, starting at t.Off
+		m := append([]byte(nil), data...)
+		for k := 0; k < t.Len; k++ {
+			if o := t.Off + 136*k; o < len(m) {
+				m[o] ^= t.Mask
+			}
+		}
+		return m
 	case "trunc":
 		if t.Len > len(data) {
 			return data
@@ -465,6 +475,24 @@ func genC02(r *vh.Runner) {
 			}
 			for _, l := range []int{1, 16, 100} {
 				list = append(list, tamper{Hidden: ms.hidden, Msg: mt, Name: name, Kind: "extend", Len: l})
+			}
+			// alterations that could cancel in a transcript folded block-wise
+			stride := 3
+			if r.Thorough() {
+				stride = 1
+			}
+			for off := 4; off+136 < L; off += stride {
+				for _, cnt := range []int{2, 4} {
+					if off+136*(cnt-1) < L {
+						list = append(list, tamper{Hidden: ms.hidden, Msg: mt, Name: name, Kind: "flip-stride", Off: off, Len: cnt,
+							Mask: byte(1 + vh.NewRand(r.Seed, "c02-stride", mt, off).Intn(255))})
+					}
+				}
+			}
+			// a cut tail is accepted only if what the parser finds behind the
+			// datagram happens to equal it: cut again and again (fresh handshakes)
+			for rep := 0; rep < r.Pick(300, 3000); rep++ {
+				list = append(list, tamper{Hidden: ms.hidden, Msg: mt, Name: name, Kind: "trunc", Len: L - 1 - rep%3})
 			}
 			for lo := 0; lo < len(list); lo += chunk {
 				hi := min(lo+chunk, len(list))
